@@ -24,7 +24,7 @@ ok = False
 try:
     os.makedirs(os.path.join(wt, "out"), exist_ok=True)
     for f in os.listdir(out):
-        if f.startswith(("demo%s" % X, "shim")) and f.endswith((".c", ".h")):
+        if f.startswith(("demo%s" % X, "shim")) and f.endswith((".c", ".h", ".sh")):
             shutil.copy(os.path.join(out, f), os.path.join(wt, "out", f))
     fix = lambda c: c.replace(src, wt)
     strip_git = lambda c: " && ".join(seg.strip() for seg in c.split("&&") if not seg.strip().startswith("git "))
@@ -53,7 +53,7 @@ try:
     os.makedirs(d, exist_ok=True)
     shutil.copy(os.path.join(out, "mut%s.diff" % X), os.path.join(d, "patch.diff"))
     for f in os.listdir(out):
-        if f.startswith(("demo%s" % X, "shim")) and f.endswith((".c", ".h")):
+        if f.startswith(("demo%s" % X, "shim")) and f.endswith((".c", ".h", ".sh")):
             shutil.copy(os.path.join(out, f), os.path.join(d, f))
     meta2 = {"id": mid, "property": prop, "summary": meta.get("summary"), "needs": meta.get("needs"),
              "demo_build": meta["demo_build"], "demo_run": meta["demo_run"], "origin": "independent sub-agent given only the property text",
